@@ -17,7 +17,12 @@ func (x *Exec) doCall(st *State, in *ssa.Call) []Outcome {
 		}
 		return x.dynamicCall(st, in, fmt.Sprintf("interface method %s.%s", com.Value.Type(), com.Method.Name()))
 	}
-	callee := x.val(st, com.Value)
+	var callee Value
+	if self := x.selfRecursiveCallee(st, com.Value); self != nil {
+		callee = *self
+	} else {
+		callee = x.val(st, com.Value)
+	}
 	var args []Value
 	for _, a := range com.Args {
 		args = append(args, x.val(st, a))
@@ -32,6 +37,143 @@ func (x *Exec) doCall(st *State, in *ssa.Call) []Outcome {
 		return x.staticCall(st, in, c, args)
 	}
 	return x.dynamicCall(st, in, "function value "+com.Value.Name())
+}
+
+// selfRecursiveCallee resolves the idiom
+//
+//	var walk func(...); walk = func(...) { ... walk(...) ... }
+//
+// inside the closure: a call through a load of the captured variable is a call
+// of the closure itself when the enclosing function stores exactly one value
+// into that variable — this very closure — and no closure writes to it.
+func (x *Exec) selfRecursiveCallee(st *State, v ssa.Value) *FuncV {
+	ld, ok := v.(*ssa.UnOp)
+	if !ok || ld.Op != token.MUL {
+		return nil
+	}
+	if al, ok := ld.X.(*ssa.Alloc); ok {
+		return x.closureVarInParent(st, al)
+	}
+	fvar, ok := ld.X.(*ssa.FreeVar)
+	if !ok {
+		return nil
+	}
+	fr := st.top()
+	fn := fr.fn
+	parent := fn.Parent()
+	if parent == nil {
+		return nil
+	}
+	idx := -1
+	for i, f := range fn.FreeVars {
+		if f == fvar {
+			idx = i
+		}
+	}
+	if idx < 0 {
+		return nil
+	}
+	// the variable in the parent, and the closure creation that binds it
+	var cell ssa.Value
+	for _, b := range parent.Blocks {
+		for _, in := range b.Instrs {
+			if mc, ok := in.(*ssa.MakeClosure); ok && mc.Fn == fn && idx < len(mc.Bindings) {
+				if cell != nil && cell != mc.Bindings[idx] {
+					return nil
+				}
+				cell = mc.Bindings[idx]
+			}
+		}
+	}
+	al, ok := cell.(*ssa.Alloc)
+	if !ok {
+		return nil
+	}
+	stores := 0
+	for _, ref := range *al.Referrers() {
+		switch r := ref.(type) {
+		case *ssa.Store:
+			if r.Addr != al {
+				return nil // the address itself escapes into memory
+			}
+			mc, ok := r.Val.(*ssa.MakeClosure)
+			if !ok || mc.Fn != fn {
+				return nil
+			}
+			stores++
+		case *ssa.MakeClosure:
+			// captured: the capturing closure must only read it
+			cf := r.Fn.(*ssa.Function)
+			for i, bnd := range r.Bindings {
+				if bnd != al {
+					continue
+				}
+				for _, u := range *cf.FreeVars[i].Referrers() {
+					if lu, ok := u.(*ssa.UnOp); !ok || lu.Op != token.MUL {
+						return nil
+					}
+				}
+			}
+		case *ssa.UnOp, *ssa.DebugRef:
+		default:
+			return nil
+		}
+	}
+	if stores != 1 {
+		return nil
+	}
+	var binds []Value
+	for _, f := range fn.FreeVars {
+		binds = append(binds, fr.regs[f])
+	}
+	return &FuncV{Fn: fn, Bindings: binds}
+}
+
+// closureVarInParent: in the function that declares  var f func(...); f = func...
+// a call f(...) is a call of that closure when it is the only value ever stored.
+func (x *Exec) closureVarInParent(st *State, al *ssa.Alloc) *FuncV {
+	var mc *ssa.MakeClosure
+	for _, ref := range *al.Referrers() {
+		switch r := ref.(type) {
+		case *ssa.Store:
+			if r.Addr != al {
+				return nil
+			}
+			m, ok := r.Val.(*ssa.MakeClosure)
+			if !ok || mc != nil {
+				return nil
+			}
+			mc = m
+		case *ssa.MakeClosure:
+			cf := r.Fn.(*ssa.Function)
+			for i, bnd := range r.Bindings {
+				if bnd != al {
+					continue
+				}
+				for _, u := range *cf.FreeVars[i].Referrers() {
+					if lu, ok := u.(*ssa.UnOp); !ok || lu.Op != token.MUL {
+						return nil
+					}
+				}
+			}
+		case *ssa.UnOp, *ssa.DebugRef:
+		default:
+			return nil
+		}
+	}
+	if mc == nil {
+		return nil
+	}
+	fr := st.top()
+	var binds []Value
+	for _, b := range mc.Bindings {
+		v, ok := fr.regs[b]
+		if !ok {
+			return nil
+		}
+		binds = append(binds, v)
+	}
+	return &FuncV{Fn: mc.Fn.(*ssa.Function), Bindings: binds}
 }
 
 // dynamicCall: calls through function values or interfaces.  Unless a
@@ -196,7 +338,9 @@ func (x *Exec) staticCall(st *State, in *ssa.Call, fv FuncV, args []Value) []Out
 				backs = append(backs, back)
 			}
 		}
+		x.callBindings = fv.Bindings
 		outs := x.contractCall(st, in, fn, c, args, key)
+		x.callBindings = nil
 		for _, o := range outs {
 			for _, b := range backs {
 				b(o.st)
@@ -411,6 +555,19 @@ func (x *Exec) contractCall(st *State, in *ssa.Call, fn *ssa.Function, c *Contra
 	if fn.Pkg != nil {
 		env.pkg = fn.Pkg.Pkg
 	}
+	// a closure's contract may name its captured variables
+	var fvLookup func(name string) (Value, bool)
+	if binds := x.callBindings; len(binds) == len(fn.FreeVars) && len(binds) > 0 {
+		fvLookup = func(name string) (Value, bool) {
+			for i, f := range fn.FreeVars {
+				if f.Name() == name {
+					return x.loadQuiet(st, binds[i]), true
+				}
+			}
+			return nil, false
+		}
+		env.lookup = fvLookup
+	}
 	for _, r := range c.Requires {
 		g := x.compileBool(env, r.Expr, r)
 		x.oblige(st, "requires", "call:"+shortKey(key)+"/"+r.Name, g, pos, r)
@@ -430,6 +587,7 @@ func (x *Exec) contractCall(st *State, in *ssa.Call, fn *ssa.Function, c *Contra
 	sig := fn.Signature
 	results := x.freshResults(st, sig.Results(), sanitize(fn.Name()))
 	post := &Env{x: x, st: st, heap: st.heap, vars: map[string]Value{}, old: pre, alloc: st.alloc, pkg: env.pkg}
+	post.lookup = fvLookup
 	for k, v := range vars {
 		post.vars[k] = v
 	}
